@@ -36,7 +36,7 @@ ASSUMPTIONS = [
     "termination is judged on a logical step budget (sys.monitoring PY_START events), the "
     "wall-clock watchdog only makes a run inconclusive",
 ]
-FLOORS = {"quick": {"evaluations": 10000, "raw_lines": 1500, "json_hostile": 300,
+FLOORS = {"quick": {"nesting_depths_swept": 4000, "evaluations": 10000, "raw_lines": 1500, "json_hostile": 300,
                     "structure_aware": 8000, "live_lines": 100, "answered": 12000,
                     "hostile_leaves": 150},
           "thorough": {"evaluations": 300000, "raw_lines": 40000, "json_hostile": 4000,
@@ -417,6 +417,22 @@ def run_shard(spec, acc):
             feed(cls, False, line, {"kind": "json", "cls": cls, "v1": False,
                                     "line": line[:2048].hex() if len(line) < 4096 else None,
                                     "len": len(line), "head": line[:60].decode("latin1")})
+        # (2b) every nesting depth around the interpreter's limits, one by one: between the
+        # depth the parser still accepts and the depth other recursive consumers (logging
+        # the request, re-serialising it) still accept there are windows a few levels wide
+        lo, hi = (900, 2600) if quick else (1, 6000)
+        for d in range(lo, hi):
+            if d % spec["n"] != spec["shard"]:
+                continue
+            for cls, line in (
+                    ("json:depth-sweep-field-array", '{"command":"version","version":5,"x":' +
+                     "[" * d + "]" * d + "}"),
+                    ("json:depth-sweep-field-object", '{"command":"sign","version":5,"message":' +
+                     '{"a":' * d + "1" + "}" * d + "}"),
+                    ("json:depth-sweep-top-array", "[" * d + "]" * d)):
+                acc.count("nesting_depths_swept")
+                feed(cls, d % 5 == 0, line.encode() + b"\n",
+                     {"kind": "depth", "cls": cls, "depth": d, "v1": d % 5 == 0})
         # (3) structure-aware; kept for (4).  The grid is dealt to shards by its own
         # generator; the hand-written leaves are dealt here
         kept = []
@@ -531,6 +547,24 @@ def replay(case, acc):
         line = json.dumps(case["request"]).encode() + b"\n"
     elif case.get("line"):
         line = bytes.fromhex(case["line"])
+    elif case["kind"] == "depth":
+        # (the stack depth of the replay differs from the run's: neighbours too)
+        d = case["depth"]
+        dev = c02.make_device(random.Random(5))
+        with Stack(dev, version_one=case.get("v1", False)) as s:
+            s.initialize()
+            for dd in range(max(1, d - 40), d + 40):
+                body = {"json:depth-sweep-field-array": '{"command":"version","version":5,"x":' +
+                        "[" * dd + "]" * dd + "}",
+                        "json:depth-sweep-field-object":
+                        '{"command":"sign","version":5,"message":' + '{"a":' * dd + "1" +
+                        "}" * dd + "}"}.get(case["cls"], "[" * dd + "]" * dd)
+                out, exc = s.handle_line(body.encode() + b"\n")
+                v = judge(out, exc)
+                if v is not None:
+                    acc.violation(v[0], dict(v[1], depth=dd), case)
+                    return
+        return
     else:
         acc.notes.append("case too large to store; re-run the tier")
         return
